@@ -235,10 +235,8 @@ impl Compiler {
     }
 
     fn compile_block_statement(&mut self, stmts: &[Stmt]) -> Result<(), Error> {
-        // if block statement does not contain any other statements or expressions
-        // simply push a NULL onto the stack
+        // an empty block compiles to nothing (as a statement it must leave the stack untouched)
         if stmts.is_empty() {
-            self.emit_opcode(OpCode::Null);
             return Ok(());
         }
 
@@ -247,6 +245,19 @@ impl Compiler {
             self.compile_statement(s)?;
         }
         self.symbols.leave_scope();
+        Ok(())
+    }
+
+    /// Compiles a block in a position where its value is used (if-branch, loop body):
+    /// leaves exactly one value on the stack, the value of the last expression statement or null.
+    fn compile_block_value(&mut self, stmts: &[Stmt]) -> Result<(), Error> {
+        let start = self.instructions.len();
+        self.compile_block_statement(stmts)?;
+        if self.instructions.len() > start && self.last_instruction_is(OpCode::Pop) {
+            self.remove_last_instruction();
+        } else {
+            self.emit_opcode(OpCode::Null);
+        }
         Ok(())
     }
 
@@ -528,11 +539,7 @@ impl Compiler {
                 self.emit_opcode(OpCode::JumpIfFalse);
                 self.emit_u16(JUMP_PLACEHOLDER);
 
-                self.compile_block_statement(consequence)?;
-
-                if self.last_instruction_is(OpCode::Pop) {
-                    self.remove_last_instruction();
-                }
+                self.compile_block_value(consequence)?;
 
                 let pos_jump = self.instructions.len();
                 self.emit_opcode(OpCode::Jump);
@@ -544,10 +551,7 @@ impl Compiler {
                 );
 
                 if let Some(alternative) = alternative {
-                    self.compile_block_statement(alternative)?;
-                    if self.last_instruction_is(OpCode::Pop) {
-                        self.remove_last_instruction();
-                    }
+                    self.compile_block_value(alternative)?;
                 } else {
                     self.emit_opcode(OpCode::Null);
                 }
@@ -556,7 +560,6 @@ impl Compiler {
                 self.change_jump_operand_at(pos_jump, self.instructions.len().try_into().unwrap());
             }
             Expr::While { condition, body } => {
-                // TODO: Can we get rid of this now that empty block statement emit a NULL?
                 self.emit_opcode(OpCode::Null);
                 self.loop_contexts
                     .push(LoopContext::new(self.instructions.len()));
@@ -567,13 +570,7 @@ impl Compiler {
                 self.emit_opcode(OpCode::JumpIfFalse);
                 self.emit_u16(JUMP_PLACEHOLDER);
                 self.emit_opcode(OpCode::Pop);
-                self.compile_block_statement(body)?;
-
-                if self.last_instruction_is(OpCode::Pop) {
-                    self.remove_last_instruction();
-                } else {
-                    self.emit_opcode(OpCode::Null);
-                }
+                self.compile_block_value(body)?;
 
                 // emit jump instruction to loop condition
                 self.emit_opcode(OpCode::Jump);
@@ -616,10 +613,11 @@ impl Compiler {
 
                 self.compile_block_statement(body)?;
 
-                if self.last_instruction_is(OpCode::Pop) {
+                let body_is_empty = self.instructions.len() == pos_start_function;
+                if !body_is_empty && self.last_instruction_is(OpCode::Pop) {
                     self.remove_last_instruction();
                     self.emit_opcode(OpCode::ReturnValue);
-                } else if !self.last_instruction_is(OpCode::ReturnValue) {
+                } else if body_is_empty || !self.last_instruction_is(OpCode::ReturnValue) {
                     self.emit_opcode(OpCode::Return);
                 }
 
